@@ -902,7 +902,6 @@ func checkC16(c *core.Ctx) {
 	}
 }
 
-
 // lookaheadPutBack: R4c. When the formatter tests the kind of a token it took
 // by position (not the token the dispatch loop is switching on) it is looking
 // ahead: on the side where the token is NOT of the tested kind, every path
@@ -1243,7 +1242,6 @@ func lookaheadPutBack(c *core.Ctx, p *load.Prog) {
 	c.Floor("formatter_lookaheads", 1)
 }
 
-
 // lineCommentTerminator: R6. The formatter writes a line comment as the
 // token's text and nothing else; whatever follows lands on the same line and
 // becomes part of the comment unless that text ends in the line break the
@@ -1348,7 +1346,6 @@ func lineCommentTerminator(c *core.Ctx, p *load.Prog) {
 	c.Check("R6", "a line comment is written with its line break (kept by the tokenizer or added at every formatter site)", p.Pos(fd.Pos()), keeps || (sites > 0 && adding == sites),
 		fmt.Sprintf("%s, and only %d of the %d formatter sites that write a line comment add a break: the token that follows the comment is written on the comment's line and disappears into it", why, adding, sites))
 }
-
 
 // tokensVerbatim: R4d. The formatter re-emits tokens; the text of a token
 // (identifier, literal, comment — line comments carry `//[tag(…)]` field tags
@@ -1466,7 +1463,6 @@ func tokensVerbatim(c *core.Ctx, p *load.Prog, rule string) {
 	c.Floor("formatter_token_text_uses", 12)
 }
 
-
 func mentionsIdent(n ast.Node, name string) bool {
 	found := false
 	ast.Inspect(n, func(m ast.Node) bool {
@@ -1529,7 +1525,6 @@ func usesTakenToken(info *types.Info, st ast.Stmt) bool {
 	return found
 }
 
-
 // startsWithCurrentToken: fn takes the token reader and, on every path, its
 // first token event is a use of the current token (tr.Token(), .concrete,
 // handing the reader to another such function) rather than tr.Next().
@@ -1590,7 +1585,6 @@ func startsWithCurrentToken(info *types.Info, fn *types.Func) bool {
 	}
 	return res == 1
 }
-
 
 // attributesSurviveLineBreaks: R8. Format removes blank lines and re-breaks
 // the text, so the parser must not let a line break decide whether a
